@@ -885,4 +885,10 @@ def r19_16(ctx):
     borrow(ctx, r6_5, "R6.5", "R19.16", " [encoder side of the round trip: every attribute a style sets is written as its SGR code - the group masks of _make_ansi_codes cover every attribute bit, or decode(encode(style)) loses it]")
 
 
-RULES = [r19_1, r19_2, r19_3, r19_4, r19_5, r19_6, r19_8, r19_9, r19_10, r19_11, r19_12, r19_13, r19_14, r19_15, r19_16]
+def r19_17(ctx):
+    from .c03 import r3_7
+    from .common import borrow as _borrow
+    _borrow(ctx, r3_7, "R3.7", "R19.17", " [decode(encode(segments)) gives the segments' styles only if the SGR string written for a combined style is computed from ITS fields: a cached SGR inherited from the left operand prints `bold + not bold` as bold]")
+
+
+RULES = [r19_1, r19_2, r19_3, r19_4, r19_5, r19_6, r19_8, r19_9, r19_10, r19_11, r19_12, r19_13, r19_14, r19_15, r19_16, r19_17]
